@@ -1,0 +1,97 @@
+//go:build verif
+
+package virtual
+
+import (
+	"fmt"
+)
+
+// VerifDirectoryEntry is one entry of a directory as stored in
+// inMemoryDirectoryContents.entriesList, in list (attach) order.
+type VerifDirectoryEntry struct {
+	Name           string
+	NormalizedName string
+	Cookie         uint64
+	Directory      PrepopulatedDirectory
+	Leaf           LinkableLeaf
+}
+
+// VerifDirectoryDump is the representation of a single
+// inMemoryPrepopulatedDirectory, as used by the verification harness.
+type VerifDirectoryDump struct {
+	// Initialized is false as long as the InitialContentsFetcher
+	// has not been evaluated.
+	Initialized bool
+	IsDeleted   bool
+	ChangeID    uint64
+	Entries     []VerifDirectoryEntry
+	// Inconsistency is non-empty if entriesMap and entriesList do
+	// not describe the same set of entries, or if the list is not
+	// properly doubly linked.
+	Inconsistency string
+}
+
+// VerifDumpDirectory returns the current contents of a directory
+// without initializing it. The second return value is false if the
+// directory is not an inMemoryPrepopulatedDirectory.
+func VerifDumpDirectory(d PrepopulatedDirectory) (VerifDirectoryDump, bool) {
+	i, ok := d.(*inMemoryPrepopulatedDirectory)
+	if !ok {
+		return VerifDirectoryDump{}, false
+	}
+	i.lock.Lock()
+	defer i.lock.Unlock()
+
+	dump := VerifDirectoryDump{
+		Initialized: i.initialContentsFetcher == nil,
+		IsDeleted:   i.contents.isDeleted,
+		ChangeID:    i.contents.changeID,
+	}
+	if !dump.Initialized {
+		if i.contents.entriesMap != nil || i.contents.entriesList.next != nil {
+			dump.Inconsistency = "uninitialized directory has contents"
+		}
+		return dump, true
+	}
+	c := &i.contents
+	if c.entriesList.next == nil || c.entriesList.previous == nil {
+		dump.Inconsistency = "initialized directory without list head"
+		return dump, true
+	}
+	previous := &c.entriesList
+	for entry := c.entriesList.next; entry != &c.entriesList; entry = entry.next {
+		if entry == nil {
+			dump.Inconsistency = "nil entry in list"
+			return dump, true
+		}
+		if entry.previous != previous && dump.Inconsistency == "" {
+			dump.Inconsistency = fmt.Sprintf("entry %#v has a wrong previous pointer", entry.name.String())
+		}
+		if c.entriesMap[entry.normalizedName] != entry && dump.Inconsistency == "" {
+			dump.Inconsistency = fmt.Sprintf("entry %#v is in the list but not in the map", entry.name.String())
+		}
+		directory, leaf := entry.child.GetPair()
+		e := VerifDirectoryEntry{
+			Name:           entry.name.String(),
+			NormalizedName: string(entry.normalizedName),
+			Cookie:         entry.cookie,
+			Leaf:           leaf,
+		}
+		if directory != nil {
+			e.Directory = directory
+		}
+		dump.Entries = append(dump.Entries, e)
+		previous = entry
+		if len(dump.Entries) > 1<<20 {
+			dump.Inconsistency = "list does not terminate"
+			return dump, true
+		}
+	}
+	if c.entriesList.previous != previous && dump.Inconsistency == "" {
+		dump.Inconsistency = "list head has a wrong previous pointer"
+	}
+	if len(c.entriesMap) != len(dump.Entries) && dump.Inconsistency == "" {
+		dump.Inconsistency = fmt.Sprintf("map has %d entries, list has %d", len(c.entriesMap), len(dump.Entries))
+	}
+	return dump, true
+}
